@@ -6,7 +6,7 @@ THEOREMS = []  # filled once Properties/C13.v exists
 
 
 def run(run, args):
-    n = 600 if run.tier == "quick" else 6000
+    n = (600 if run.tier == "quick" else 6000) * run.scale
     recs, res, errors = peaklib.run_peak(run, "c13", n)
     decide(run, recs, res, errors, THEOREMS_C13, "C13")
 
